@@ -22,7 +22,11 @@ type Sig struct {
 	Params  []Param
 	Results []*Type
 	Mode    string // named | unnamed | blank | hostile | minted
+	// ResNames names the results (all or none): func(a A) (r0 R, err error)
+	ResNames []string
 }
+
+var hostileResultNames = []string{"f", "err", "g", "param_0", "param_1", "out0", "success", "v0", "res0", "ok", "e", "this", "mem", "input", "h", "c"}
 
 var hostileNames = []string{"f", "g", "err", "param_0", "v0", "in", "out", "this", "that", "list", "param_1", "innerParam_0", "h", "m", "res0", "ok", "success", "e", "out0", "out1", "v", "c", "i", "wait", "mem", "input", "output"}
 
@@ -110,6 +114,13 @@ func ResultList(rs []*Type, render func(*Type) string) string {
 // FuncType renders the function type.
 func (s *Sig) FuncType(render func(*Type) string) string {
 	r := ResultList(s.Results, render)
+	if len(s.ResNames) == len(s.Results) && len(s.Results) > 0 {
+		var out []string
+		for i, t := range s.Results {
+			out = append(out, s.ResNames[i]+" "+render(t))
+		}
+		r = "(" + strings.Join(out, ", ") + ")"
+	}
 	if r != "" {
 		r = " " + r
 	}
@@ -142,6 +153,30 @@ func (e *Env) DrawSig(t *rapid.T, minParams, maxParams, maxResults int, modes []
 	nr := rapid.IntRange(0, maxResults).Draw(t, "nresults")
 	for i := 0; i < nr; i++ {
 		s.Results = append(s.Results, e.DrawSigType(t, true))
+	}
+	if nr > 0 && !e.Opt.NoResultNames {
+		// named results: plain ones, or names the generated wrappers use themselves (never a parameter's name: Go forbids it)
+		taken := map[string]bool{}
+		for _, p := range s.Params {
+			taken[p.Name] = true
+		}
+		switch rapid.IntRange(0, 5).Draw(t, "resnames") {
+		case 0:
+			for i := 0; i < nr; i++ {
+				s.ResNames = append(s.ResNames, fmt.Sprintf("r%d", i))
+			}
+		case 1:
+			for i := 0; i < nr; i++ {
+				for {
+					nm := hostileResultNames[rapid.IntRange(0, len(hostileResultNames)-1).Draw(t, "hostileres")]
+					if !taken[nm] {
+						taken[nm] = true
+						s.ResNames = append(s.ResNames, nm)
+						break
+					}
+				}
+			}
+		}
 	}
 	return s
 }
